@@ -15,7 +15,7 @@ from .c01 import UNIVERSE
 ID = "C10"
 ATHERIS = True  # thorough tier: coverage-guided second engine over the same strategy/run_case
 LEVEL = "exploration"
-BUDGET = {"quick": 5000, "thorough": 200000}
+BUDGET = {"quick": 3500, "thorough": 200000}
 RULE = (
     "case = (mapping of 0-12 items incl. the empty key, prefix-related keys, branch "
     "values, embedded nodes, built with some overwrites/deletes; query keys: index-based "
